@@ -9,6 +9,11 @@
 (*   {"ev":"deliver",...same fields...}                                      *)
 (*   {"ev":"quiet","tables":[[route,..],..],"announced":[..]}  at the end    *)
 (* A new "topo" event starts a new mesh.                                     *)
+(*   {"ev":"relink","links":[...]}   a living mesh: while the network is     *)
+(*        quiet links of the SAME running routers were lost and (perhaps     *)
+(*        later) established again, possibly with other switch labels; the   *)
+(*        event carries the links as they are from now on.  Flooding rules   *)
+(*        and Reach are judged against the links as they are NOW.            *)
 (*                                                                         *)
 (* Two TLC facts shape this module: guards with existential quantifiers     *)
 (* are compared with TRUE so that TLC evaluates them as expressions (inside  *)
@@ -35,6 +40,13 @@ Topo == /\ Ev.ev = "topo"
         /\ n' = Ev.n
         /\ links' = ToSet(Ev.links)
         /\ sent' = {} /\ delivered' = {}
+
+(* links are lost / re-established between drained rounds; the routers (and  *)
+(* what they sent so far: k keeps counting per origin) stay                  *)
+Relink == /\ Ev.ev = "relink"
+          /\ sent = delivered
+          /\ links' = ToSet(Ev.links)
+          /\ UNCHANGED <<n, sent, delivered>>
 
 Announce == Ev.ev = "announce" /\ UNCHANGED <<n, links, sent, delivered>>
 
@@ -82,7 +94,7 @@ Quiet == /\ Ev.ev = "quiet"
          /\ ReachOK = TRUE               \* Reach
          /\ UNCHANGED <<n, links, sent, delivered>>
 
-TraceNext == l <= Len(Trace) /\ l' = l + 1 /\ (Topo \/ Announce \/ Send \/ Deliver \/ Quiet)
+TraceNext == l <= Len(Trace) /\ l' = l + 1 /\ (Topo \/ Relink \/ Announce \/ Send \/ Deliver \/ Quiet)
 
 TraceAccepted ==
   LET d == TLCGet("stats").diameter
